@@ -4,6 +4,8 @@
 // Termination is decided by the runner's watchdog (case-count-bounded runs).
 #include "printf_common.hpp"
 #include <frg/cmdline.hpp>
+#include <functional>
+#include <memory>
 #include <frg/array.hpp>
 #include <frg/span.hpp>
 #include <limits>
@@ -104,14 +106,38 @@ struct Cell { // option target in an exact-size heap cell
 	~Cell() { free(p); }
 };
 
+// a single-pass option table: the option an iterator designates lives in a heap cell that is released when the iterator moves on
+// (and when it reaches the end), like the buffer of a stream iterator. A parser may use the option only while the iterator stays.
+struct OptionStream {
+	struct State { std::vector<std::function<frg::option()>> make; };
+	State *st;
+	struct End {};
+	struct It { using difference_type = std::ptrdiff_t; using value_type = frg::option; State *st = nullptr; size_t i = 0; std::shared_ptr<frg::option> cell; // the iterator (and its copies) own the cell
+		void load() { if(i < st->make.size()) cell = std::make_shared<frg::option>(st->make[i]()); else cell.reset(); }
+		const frg::option &operator*() const { return *cell; }
+		It &operator++() { i++; load(); return *this; }
+		void operator++(int) { ++*this; }
+		bool operator==(End) const { return i >= st->make.size(); } };
+	It begin() { It it; it.st = st; it.load(); return it; }
+	End end() { return {}; }
+};
+static_assert(std::ranges::range<OptionStream>);
+
 static void cmdline_input(const std::string &line, Rng &r) {
 	GuardedBuf g(line.data(), line.size());
 	frg::string_view v(g.data(), line.size());
 	case_detail("cmdline \"%s\"", line.c_str());
 	Cell flag_a(sizeof(bool)), flag_b(sizeof(bool)), sv(sizeof(frg::string_view)), sv2(sizeof(frg::string_view)), i8(1), u8(1), i32(4), u64(8), i64(8), u16(2);
 	new (sv.p) frg::string_view(); new (sv2.p) frg::string_view();
-	int table = r.below(6);
+	int table = r.below(7);
 	try {
+		if(table == 6) {
+			OptionStream::State st;
+			st.make = {[&] { return frg::option{"a", frg::store_true(*(bool *)flag_a.p)}; }, [&] { return frg::option{"1", frg::as_number(*(int32_t *)i32.p)}; }, [&] { return frg::option{"aa", frg::as_string_view(*(frg::string_view *)sv.p)}; },
+				[&] { return frg::option{"a1", frg::store_false(*(bool *)flag_b.p)}; }, [&] { return frg::option{"", frg::as_string_view(*(frg::string_view *)sv2.p)}; }, [&] { return frg::option{"a", frg::as_number(*(uint64_t *)u64.p)}; }};
+			frg::parse_arguments(v, OptionStream{&st});
+			count("cmdline_single_pass_option_tables");
+		} else
 		if(table == 5) { // a table that is computed on the fly: a view that builds each frg::option when the iterator is dereferenced
 			// (parse_arguments takes any range of options; the options of such a range are temporaries)
 			struct Setting { const char *name; int kind; void *target; };
